@@ -16,8 +16,10 @@ import (
 	"fmt"
 	"math/big"
 	"math/rand"
+	"runtime"
 	"strconv"
 	"strings"
+	"time"
 
 	ige "github.com/xelaj/mtproto/internal/aes_ige"
 )
@@ -106,6 +108,31 @@ func leftPad(b []byte, w int) []byte {
 	return append(make([]byte, w-len(b)), b...)
 }
 
+// c05Bytes: the byte-string tokens of util.go (hex, "-", z<n>, p<n>) plus r<n>:<seed> — n bytes of the
+// 64-bit linear congruential generator (Knuth's MMIX constants) started at seed, top byte of each state.
+// Long inputs (hundreds of blocks) stay one short token on the operation line; Driver/C05.lean expands the
+// token the same way.
+func c05Bytes(s string) []byte {
+	if strings.HasPrefix(s, "r") {
+		parts := strings.SplitN(s[1:], ":", 2)
+		if len(parts) != 2 {
+			panic("bad r token: " + s)
+		}
+		n := atoi(parts[0])
+		st, err := strconv.ParseUint(parts[1], 10, 64)
+		if err != nil {
+			panic("bad r token: " + s)
+		}
+		b := make([]byte, n)
+		for i := range b {
+			st = st*6364136223846793005 + 1442695040888963407
+			b[i] = byte(st >> 56)
+		}
+		return b
+	}
+	return parseBytes(s)
+}
+
 // ---- running the real code ------------------------------------------------------------------------
 
 const c05Site = "panic:"
@@ -143,7 +170,7 @@ func c05Same(before, after []byte) string {
 	return "changed"
 }
 
-func c05Big(tok string) *big.Int { return new(big.Int).SetBytes(parseBytes(tok)) }
+func c05Big(tok string) *big.Int { return new(big.Int).SetBytes(c05Bytes(tok)) }
 
 func c05Outcome(b []byte, err error, pan string) string {
 	if pan != "" {
@@ -190,7 +217,7 @@ func c05PlaceInt(i int, tok string, decoy bool) *big.Int {
 	if c05Ints[i] == nil {
 		c05Ints[i] = new(big.Int)
 	}
-	b := append([]byte{}, parseBytes(tok)...)
+	b := append([]byte{}, c05Bytes(tok)...)
 	if decoy {
 		c05Scribble(b)
 	}
@@ -224,6 +251,67 @@ func c05Retained(results [][]byte, args [][]byte, ints ...*big.Int) bool {
 	return false
 }
 
+// ---- later -----------------------------------------------------------------------------------------
+//
+// "The caller's buffers are never modified" has no time limit: code that keeps a reference to caller
+// memory inside an object of its own can write through it when that object is collected (a finalizer, a
+// pooled object that is cleaned on reuse), long after a call that returned the right result and left every
+// buffer intact. So after an operation has returned and its buffers have been looked at, everything the
+// call allocated is dropped, the collector runs twice and the finalizer goroutine is waited for; then
+// every caller-owned buffer is looked at again.
+
+//go:noinline
+func c05Sentinel() chan struct{} {
+	done := make(chan struct{})
+	s := &struct {
+		p *int
+		b [64]byte
+	}{}
+	runtime.SetFinalizer(s, func(interface{}) { close(done) })
+	return done
+}
+
+// c05Collect: two collections. The finalizer goroutine runs what one collection queued as one batch,
+// strictly before the batch of the next collection: when the second sentinel's finalizer has run, every
+// finalizer that the first collection queued has returned.
+func c05Collect() {
+	for i := 0; i < 2; i++ {
+		done := c05Sentinel()
+		runtime.GC()
+		select {
+		case <-done:
+		case <-time.After(2 * time.Second):
+		}
+		runtime.Gosched()
+	}
+}
+
+// c05Later reports whether any of the caller-owned buffers / integers differs after collection from what
+// it held when the call had just returned.
+func c05Later(bufs [][]byte, ints ...*big.Int) bool {
+	snap := make([][]byte, 0, len(bufs)+len(ints))
+	for _, b := range bufs {
+		snap = append(snap, append([]byte{}, b...))
+	}
+	for _, n := range ints {
+		snap = append(snap, n.Bytes())
+	}
+	c05Collect()
+	for i, b := range bufs {
+		if !bytes.Equal(snap[i], b) {
+			return true
+		}
+	}
+	for i, n := range ints {
+		if !bytes.Equal(snap[len(bufs)+i], n.Bytes()) {
+			return true
+		}
+	}
+	return false
+}
+
+const c05LateChange = "caller-buffer-changed-after-gc"
+
 func c05Exec(op []string) string {
 	func() {
 		defer func() { _ = recover() }()
@@ -233,7 +321,7 @@ func c05Exec(op []string) string {
 }
 
 func c05Exec1(op []string, decoy bool) string {
-	arg := func(slot, i int) []byte { return c05Place(slot, parseBytes(op[i]), decoy) }
+	arg := func(slot, i int) []byte { return c05Place(slot, c05Bytes(op[i]), decoy) }
 	switch op[0] {
 	case "c05.enc", "c05.dec":
 		key, iv, data := arg(0, 1), arg(1, 2), arg(2, 3)
@@ -245,6 +333,9 @@ func c05Exec1(op []string, decoy bool) string {
 			err = ige.VerifIGEDecrypt(data, out, key, iv)
 		}
 		line := fmt.Sprintf("err=%s out=%s in=%s", c05Err(err), showBytes(out), showBytes(data))
+		if !decoy && c05Later([][]byte{key, iv, data, out}) {
+			return c05LateChange
+		}
 		if c05Retained([][]byte{out}, [][]byte{key, iv, data}) {
 			return "caller-buffer-retained"
 		}
@@ -260,6 +351,9 @@ func c05Exec1(op []string, decoy bool) string {
 		})
 		if !bytes.Equal(ak, ak0) || !bytes.Equal(msg, msg0) {
 			return "caller-buffer-changed"
+		}
+		if !decoy && c05Later([][]byte{ak, msg, res}) {
+			return c05LateChange
 		}
 		if c05Retained([][]byte{res}, [][]byte{ak, msg}) {
 			return "caller-buffer-retained"
@@ -277,6 +371,9 @@ func c05Exec1(op []string, decoy bool) string {
 		if !bytes.Equal(ak, ak0) || !bytes.Equal(mk, mk0) || !bytes.Equal(ct, ct0) {
 			return "caller-buffer-changed"
 		}
+		if !decoy && c05Later([][]byte{ak, mk, ct, res}) {
+			return c05LateChange
+		}
 		if c05Retained([][]byte{res}, [][]byte{ak, mk, ct}) {
 			return "caller-buffer-retained"
 		}
@@ -287,6 +384,9 @@ func c05Exec1(op []string, decoy bool) string {
 		_, pan := c05Catch(func() []byte { key, iv = ige.VerifGenerateTempKeys(n, s); return nil })
 		if pan != "" {
 			return pan
+		}
+		if !decoy && c05Later([][]byte{key, iv}, n, s) {
+			return c05LateChange
 		}
 		if c05Retained([][]byte{key, iv}, nil, n, s) {
 			return "caller-buffer-retained"
@@ -305,6 +405,9 @@ func c05Exec1(op []string, decoy bool) string {
 		if !bytes.Equal(msg, msg0) {
 			return "caller-buffer-changed"
 		}
+		if !decoy && c05Later([][]byte{msg, ct}, n, s) {
+			return c05LateChange
+		}
 		if c05Retained([][]byte{ct}, [][]byte{msg}) {
 			return "caller-buffer-retained"
 		}
@@ -316,6 +419,9 @@ func c05Exec1(op []string, decoy bool) string {
 		if !bytes.Equal(ct, ct0) {
 			return "caller-buffer-changed"
 		}
+		if !decoy && c05Later([][]byte{ct, rt}, n, s) {
+			return c05LateChange
+		}
 		if c05Retained([][]byte{rt}, [][]byte{ct}, n, s) {
 			return "caller-buffer-retained"
 		}
@@ -326,6 +432,9 @@ func c05Exec1(op []string, decoy bool) string {
 		ct, pan := c05Catch(func() []byte { return ige.VerifEncryptWithTempKeysNoPad(data, n, s) })
 		if !bytes.Equal(data, data0) {
 			return "caller-buffer-changed"
+		}
+		if !decoy && c05Later([][]byte{data, ct}, n, s) {
+			return c05LateChange
 		}
 		if c05Retained([][]byte{ct}, [][]byte{data}, n, s) {
 			return "caller-buffer-retained"
@@ -347,6 +456,9 @@ func c05Exec1(op []string, decoy bool) string {
 		if !bytes.Equal(ct, ct0) {
 			return "caller-buffer-changed"
 		}
+		if !decoy && c05Later([][]byte{ct, res}, n, s) {
+			return c05LateChange
+		}
 		if c05Retained([][]byte{res}, [][]byte{ct, nb, sb}, n, s) {
 			return "caller-buffer-retained"
 		}
@@ -354,6 +466,9 @@ func c05Exec1(op []string, decoy bool) string {
 	case "c05.tdecraw":
 		n, s, ct := c05PlaceInt(0, op[1], decoy), c05PlaceInt(1, op[2], decoy), arg(0, 3)
 		res, pan := c05Catch(func() []byte { return ige.DecryptMessageWithTempKeys(ct, n, s) })
+		if !decoy && c05Later([][]byte{ct, res}, n, s) {
+			return c05LateChange
+		}
 		if c05Retained([][]byte{res}, [][]byte{ct}, n, s) {
 			return "caller-buffer-retained"
 		}
@@ -392,12 +507,15 @@ func c05Judge1(op []string, out string) string {
 	if out == "caller-buffer-changed" {
 		return "a caller's buffer was modified by the call"
 	}
+	if out == c05LateChange {
+		return "a caller's buffer, intact when the call returned, had changed after the garbage collector (and the finalizers it queued) had run: the code keeps a reference into caller-owned memory and writes through it later"
+	}
 	if out == "caller-buffer-retained" {
 		return "the result changed when the caller overwrote its own argument buffers after the call had returned: the code hands out / keeps a reference into caller-owned memory"
 	}
 	switch op[0] {
 	case "c05.enc", "c05.dec":
-		key, iv, data := parseBytes(op[1]), parseBytes(op[2]), parseBytes(op[3])
+		key, iv, data := c05Bytes(op[1]), c05Bytes(op[2]), c05Bytes(op[3])
 		if len(key) != 32 || len(iv) != 32 {
 			return ""
 		}
@@ -426,7 +544,7 @@ func c05Judge1(op []string, out string) string {
 			return fmt.Sprintf("result differs from the IGE definition on %d blocks: want %s", len(data)/16, clip(exp))
 		}
 	case "c05.msgenc":
-		ak, msg := parseBytes(op[1]), parseBytes(op[2])
+		ak, msg := c05Bytes(op[1]), c05Bytes(op[2])
 		if len(ak) < 128 || len(msg) == 0 {
 			return "" // an auth key is 256 bytes, a message is never empty: outside the property
 		}
@@ -439,7 +557,7 @@ func c05Judge1(op []string, out string) string {
 			return fmt.Sprintf("Encrypt of %d bytes is not IGE of the message zero-padded to %d bytes: want %s", len(msg), len(padded), clip(want))
 		}
 	case "c05.msgdec":
-		ak, mk, ct := parseBytes(op[1]), parseBytes(op[2]), parseBytes(op[3])
+		ak, mk, ct := c05Bytes(op[1]), c05Bytes(op[2]), c05Bytes(op[3])
 		if len(ak) < 136 || len(mk) != 16 {
 			return ""
 		}
@@ -454,7 +572,7 @@ func c05Judge1(op []string, out string) string {
 			return "Decrypt differs from IGE decryption under the message's key schedule: want " + clip(want)
 		}
 	case "c05.tkeys":
-		nb, sb := leftPad(parseBytes(op[1]), 32), leftPad(parseBytes(op[2]), 16)
+		nb, sb := leftPad(c05Bytes(op[1]), 32), leftPad(c05Bytes(op[2]), 16)
 		if nb == nil || sb == nil {
 			return "" // not a 256-bit / 128-bit nonce
 		}
@@ -463,15 +581,15 @@ func c05Judge1(op []string, out string) string {
 			return "temp key/iv differ from the MTProto definition on the fixed-width nonces: want " + want
 		}
 	case "c05.tenc":
-		nb, sb := leftPad(parseBytes(op[1]), 32), leftPad(parseBytes(op[2]), 16)
-		msg := parseBytes(op[5])
+		nb, sb := leftPad(c05Bytes(op[1]), 32), leftPad(c05Bytes(op[2]), 16)
+		msg := c05Bytes(op[5])
 		if nb == nil || sb == nil {
 			return ""
 		}
 		if strings.HasPrefix(out, "panic:") {
 			return "EncryptMessageWithTempKeys panicked: " + out
 		}
-		ct := parseBytes(field(out, "ct"))
+		ct := c05Bytes(field(out, "ct"))
 		key, iv := refTempKeys(nb, sb)
 		if len(ct) == 0 || len(ct)%16 != 0 {
 			return fmt.Sprintf("ciphertext of %d bytes", len(ct))
@@ -487,8 +605,8 @@ func c05Judge1(op []string, out string) string {
 			return fmt.Sprintf("the client cannot read back its own message of %d bytes: %s", len(msg), field(out, "rt"))
 		}
 	case "c05.tnopad":
-		nb, sb := leftPad(parseBytes(op[1]), 32), leftPad(parseBytes(op[2]), 16)
-		data := parseBytes(op[3])
+		nb, sb := leftPad(c05Bytes(op[1]), 32), leftPad(c05Bytes(op[2]), 16)
+		data := c05Bytes(op[3])
 		if nb == nil || sb == nil {
 			return ""
 		}
@@ -506,10 +624,10 @@ func c05Judge1(op []string, out string) string {
 		if out == "bad-op" {
 			return ""
 		}
-		answer := parseBytes(op[4])
+		answer := c05Bytes(op[4])
 		if want := "ok:" + showBytes(answer); field(out, "out") != want {
 			return fmt.Sprintf("a conformant peer's answer of %d bytes with %d padding bytes is not recovered: %s",
-				len(answer), len(parseBytes(op[3])), field(out, "out"))
+				len(answer), len(c05Bytes(op[3])), field(out, "out"))
 		}
 	}
 	return ""
@@ -560,6 +678,31 @@ func c05Gen(g *G) {
 		ct := refIGE(key, iv, data, false)
 		g.Emit(fmt.Sprintf("c05.dec %s %s %s", c05Tok(key), c05Tok(iv), c05Tok(ct)), "ige-dec", tag)
 	}
+	// (a') long inputs: block counts around every power of two up to 2048 and at multiples of them, plus a few
+	// random large ones. Code that stages its input through a buffer of its own (a page, a pool chunk) is
+	// right until the input is longer than that buffer, or exactly fills it twice. The data are tokens
+	// (r<n>:<seed> pseudo-random, p<n> a pattern of period 251, z<n> zeros) so that the lines stay short.
+	longBlocks := []int{96, 127, 128, 129, 192, 255, 256, 257, 384, 511, 512, 513, 767, 768, 769, 1023, 1024, 1025, 1536, 2047, 2048, 2049}
+	for i := 0; i < g.N(4, 24); i++ {
+		longBlocks = append(longBlocks, 258+r.Intn(4096-258))
+	}
+	if g.Thorough() {
+		longBlocks = append(longBlocks, 4095, 4096, 4097, 8191, 8192, 8193)
+	}
+	for i, nb := range longBlocks {
+		key, iv := r.Bytes(32), r.Bytes(32)
+		tok := fmt.Sprintf("r%d:%d", 16*nb, r.U64())
+		if i%5 == 4 {
+			tok = fmt.Sprintf("p%d", 16*nb)
+		}
+		g.Emit(fmt.Sprintf("c05.enc %s %s %s", c05Tok(key), c05Tok(iv), tok), "ige-enc", "long-input", "blocks>=3")
+		key, iv = r.Bytes(32), r.Bytes(32)
+		g.Emit(fmt.Sprintf("c05.dec %s %s %s", c05Tok(key), c05Tok(iv), tok), "ige-dec", "long-input", "blocks>=3")
+		if nb%128 == 1 { // one byte more or less than a long aligned length is still refused
+			g.Emit(fmt.Sprintf("c05.enc %s %s r%d:%d", c05Tok(key), c05Tok(iv), 16*nb-17, r.U64()), "refused", "long-input")
+			g.Emit(fmt.Sprintf("c05.dec %s %s r%d:%d", c05Tok(key), c05Tok(iv), 16*nb-15, r.U64()), "refused", "long-input")
+		}
+	}
 	// special keys / IVs
 	for _, nb := range []int{1, 2, 3, 5} {
 		for _, kv := range [][2][]byte{{make([]byte, 32), make([]byte, 32)}, {r.Bytes(32), make([]byte, 32)},
@@ -603,6 +746,17 @@ func c05Gen(g *G) {
 		if l%16 != 0 || l == 0 {
 			g.Emit(fmt.Sprintf("c05.msgdec %s %s %s", c05Tok(ak), c05Tok(mk), c05Tok(msg)), "msg-decrypt-refused")
 		}
+	}
+	// long messages: lengths around the multiples of 4096 (and a few random ones); a server→client message is
+	// any block-aligned ciphertext, the pattern token serves as one
+	longLens := []int{2047, 2048, 2049, 8191, 8192, 8193, 12288, 16383, 16384, 16385, 20000, 32767, 32768, 32769}
+	for i := 0; i < g.N(3, 16); i++ {
+		longLens = append(longLens, 4097+r.Intn(61440))
+	}
+	for _, l := range longLens {
+		ak := r.Bytes(256)
+		g.Emit(fmt.Sprintf("c05.msgenc %s r%d:%d", c05Tok(ak), l, r.U64()), "msg-encrypt", "long-input", fmt.Sprintf("len%%16=%d", l%16))
+		g.Emit(fmt.Sprintf("c05.msgdec %s %s r%d:%d", c05Tok(ak), c05Tok(r.Bytes(16)), (l+15)/16*16, r.U64()), "msg-decrypt", "long-input")
 	}
 	for _, kl := range []int{0, 127, 128, 135, 136} { // generateAESIGE's auth-key length guard
 		g.Emit(fmt.Sprintf("c05.msgenc %s %s", c05Tok(r.Bytes(kl)), c05Tok(r.Bytes(20))), "short-authkey")
@@ -656,6 +810,15 @@ func c05Gen(g *G) {
 		seed := int64(r.U64() >> 1)
 		g.Emit(fmt.Sprintf("c05.tenc %s %s %d %s %s", c05Tok(nb), c05Tok(sb), seed, c05Tok(c05Pad16(seed)), c05Tok(r.Bytes(l))), "temp-wrap-own")
 	}
+	// long payloads for the key-exchange wrapper, both directions (20+len at and around multiples of 4096)
+	for _, l := range []int{4076, 8171, 8172, 8173, 16364, 20000, 32748, 4097 + r.Intn(30000)} {
+		nb, sb := nonce(l)
+		seed := int64(r.U64() >> 1)
+		g.Emit(fmt.Sprintf("c05.tenc %s %s %d %s r%d:%d", c05Tok(nb), c05Tok(sb), seed, c05Tok(c05Pad16(seed)), l, r.U64()), "temp-wrap-own", "long-input")
+		nb, sb = nonce(l + 1)
+		p := (16 - (20+l)%16) % 16
+		g.Emit(fmt.Sprintf("c05.tdec %s %s %s r%d:%d", c05Tok(nb), c05Tok(sb), c05Tok(r.Bytes(p)), l, r.U64()), "temp-wrap-peer", "long-input", fmt.Sprintf("padding=%d", p))
+	}
 	// (e) a conformant peer's messages: every answer length, the one padding amount 0..15 that aligns it
 	for rep := 0; rep < reps; rep++ {
 		for l := 0; l <= maxLen; l++ {
@@ -676,6 +839,10 @@ func c05Gen(g *G) {
 	}
 	// the unpadded encryption hook and garbage for the decrypting side (model correspondence; the
 	// panics on garbage belong to C07)
+	for _, nblk := range []int{256, 511, 512, 513, 1024, 2048, 600 + r.Intn(3000)} {
+		nb, sb := nonce(nblk)
+		g.Emit(fmt.Sprintf("c05.tnopad %s %s r%d:%d", c05Tok(nb), c05Tok(sb), 16*nblk, r.U64()), "temp-nopad", "long-input")
+	}
 	for _, l := range []int{0, 8, 16, 32, 48, 50, 64, 320} {
 		nb, sb := nonce(l)
 		g.Emit(fmt.Sprintf("c05.tnopad %s %s %s", c05Tok(nb), c05Tok(sb), c05Tok(r.Bytes(l))), "temp-nopad")
